@@ -274,6 +274,18 @@ func c13zero(c *core.Ctx, R string) {
 	if check(scan) {
 		ok, why = true, "Scan clears neg when no digits remain"
 	}
+	if !ok && scan != nil {
+		// the normalisation may live in a helper of the package that Scan calls
+		for _, b := range scan.Blocks {
+			for _, in := range b.Instrs {
+				if call, isC := in.(*ssa.Call); isC {
+					if g := call.Call.StaticCallee(); g != nil && core.FuncPkgPath(g) == core.FuncPkgPath(scan) && check(g) {
+						ok, why = true, "Scan clears neg when no digits remain (in "+g.Name()+")"
+					}
+				}
+			}
+		}
+	}
 	if !ok && cmp != nil {
 		// Cmp returning 0 before the sign test under a zero test
 		for _, b := range cmp.Blocks {
